@@ -3,3 +3,5 @@ import FlexiVerif.Model.Spec
 import FlexiVerif.Model.Flw
 import FlexiVerif.Model.Names
 import FlexiVerif.Model.FlwAbs
+import FlexiVerif.Model.Conc
+import FlexiVerif.Model.Fmt
